@@ -22,7 +22,7 @@ pub fn run(report: &mut Report, seed: u64, cases: u64, outdir: &str) {
     let mut attempts = 0;
     while k < cases && attempts < cases * 20 {
         attempts += 1;
-        let cfg = SchemaGenCfg { hostile_names: attempts % 4 != 0, docs: attempts % 3 == 0, max_list_depth: 3, all_scalars: true };
+        let cfg = SchemaGenCfg { hostile_names: attempts % 4 != 0, docs: attempts % 3 == 0, max_list_depth: 3, all_scalars: true, propertyless_pct: 12 };
         let m = random_schema(&mut rng, &cfg);
         let sdl = m.to_sdl();
         if !matches!(parse_schema(&sdl), Ok(Ok(_))) {
